@@ -189,7 +189,7 @@ def judge_factor(case):
     Hfull = Yf @ Yp.T / N
     if not j.check(np.allclose(H, Hfull, rtol=1e-10, atol=1e-12 * np.max(np.abs(Hfull))), "factor-hankel", "Hankel matrix differs from the lagged-sum definition (see C12)"):
         return j
-    exp = np.empty_like(T)
+    exp = np.empty(T.shape, dtype=float)
     for k in range(nb):
         sl = slice(k * Nb, (k + 1) * Nb)
         Hk = Yf[:, sl] @ Yp[:, sl].T / Nb
